@@ -25,11 +25,17 @@ pub fn run(ctx: &mut Ctx) {
 
     // ---- random_bool_vector -----------------------------------------------------------------
     let mut sizes: Vec<i32> = (0..=12).collect();
-    sizes.extend([40, 100, -1, -5, i32::MIN]);
+    sizes.extend([40, 100, -1, -5, i32::MIN, 1_000_000]);
     for size in sizes.iter() {
         for sp in SPARS.iter() {
             case += 1;
             if !ctx.mine(case) {
+                continue;
+            }
+            // the million-bit vectors (a rejection loop that gives up, a counter that saturates: only long,
+            // dense vectors show it) are drawn at sparsity 0.5 only, in the optimised build only
+            let big = *size >= 100_000;
+            if big && (*sp != 0.5 || ctx.profile != "release") {
                 continue;
             }
             ctx.rec.case_marker(case, &format!("random_bool_vector({}, {})", size, sp));
@@ -47,7 +53,7 @@ pub fn run(ctx: &mut Ctx) {
             } else {
                 0
             };
-            let total = draws.max(need.min(ctx.n(6000, 60000)));
+            let total = if big { ctx.n(150, 2500) } else { draws.max(need.min(ctx.n(6000, 60000))) };
             for _ in 0..total {
                 ctx.rec.count("draws", 1);
                 match guarded(|| CodeGenerator::random_bool_vector(*size, *sp)) {
